@@ -33,12 +33,13 @@ RULE = ("(i) dyadic: probability vectors with 2..64 (thorough ..512) entries tha
         "sample_with_u calls, _max_storage lowered; (iv) sample(size) with a prescribed uniform vector. "
         "non-trivial = at least 3 states of positive probability; distinct = distinct (stream, method, vector / chain description)")
 NOT_PROVED = [
-    "alias construction: that `create_alias` (LIFO stacks, two clean-up loops) yields tables with lawOfTables(build p) = p is NOT proved; "
-    "the proved certificate (Alias.draw_spec + law_of_cells for arbitrary tables) is applied to the tables the implementation built, and "
-    "M's `build` is compared with the implementation's (J, q) exactly on the dyadic stream",
+    "alias: Alias.build_law is a theorem about the exact-arithmetic model of `create_alias`; in floats the two clean-up loops may overwrite "
+    "entries that differ from 1 by rounding - covered by the extra certificate path (proved Alias.draw_spec + law_of_cells applied to the "
+    "(J, q) the implementation built, 2^-40) and the exact comparison of M's `build` with the implementation's (J, q) on the dyadic stream",
     "binary search tree: the in-order construction (`Bst.build` gives cells of length p_k) is not proved; the proved `Bst.draw_spec` "
     "(cells of arbitrary threshold tables) is applied to the implementation's array and the lengths are compared with p",
-    "table method: law proved for the idealisation (slot uniform on 256 values independent of a continuous residual uniform); the "
+    "table method: the residual-alias hypothesis of Table.law_partial is now discharged by Alias.build_law, the slot counts of `slotsOf` "
+    "remain hypotheses (compared exactly); law proved for the idealisation (slot uniform on 256 values independent of a continuous residual uniform); the "
     "2^32-point lattice of the real 32-bit integer is not analysed",
     "inversion: history independence proved when no pairing index below the frontier maximum is outside the grid (all 1-d chains, "
     "equal-sided boxes); with skipped indices only compared (and the storage cap then breaks it: known finding)",
